@@ -2,7 +2,7 @@
 from .. import sym
 from ..harness import ctx, Report, finish
 from ..scenario import InvoiceSpec, std_htlcs
-from ..monitors import SettleOwnHash
+from ..monitors import SettleOwnHash, Coverage
 from . import scen_common
 
 PID = 'C01'
@@ -31,12 +31,12 @@ def main(tier, seed, args):
     budget = 110 if tier == 'quick' else 1500
     configs = []
     cfg, pc = cfg_hashes(1, 'free_absent')
-    configs.append(('hashes[1 htlc, free]', cfg, pc, [SettleOwnHash()], {}))
+    configs.append(('hashes[1 htlc, free]', cfg, pc, [SettleOwnHash(), Coverage(['pay', 'response:Resolve', 'response:Continue'])], {}))
     cfg, pc = cfg_hashes(2, 'free_absent')
-    configs.append(('hashes[2 htlcs, free]', cfg, pc, [SettleOwnHash()], {}))
+    configs.append(('hashes[2 htlcs, free]', cfg, pc, [SettleOwnHash(), Coverage(['pay', 'response:Resolve'])], {}))
     for store in ('pending', 'succeeded'):
         cfg, pc = cfg_hashes(1, store)
-        configs.append(('hashes[1 htlc, %s]' % store, cfg, pc, [SettleOwnHash()], {}))
+        configs.append(('hashes[1 htlc, %s]' % store, cfg, pc, [SettleOwnHash(), Coverage(['response:Resolve'])], {}))
     if tier == 'thorough':
         cfg, pc = cfg_hashes(2, 'free_absent', crash=1)
         configs.append(('hashes[2 htlcs, crash]', cfg, pc, [SettleOwnHash()], {}))
